@@ -14,6 +14,7 @@ import numpy as np
 from .. import core, tlc
 from ..core import Tally, g_unit, g_mat, maxdiff, M_int, norm2
 from .. import attitude as A
+from .. import dcm2quat_model as MOD
 
 TOL = 1e-12
 VECS = [(1, 0, 0), (0, 1, 0), (0, 0, 1), (1, -2, 2), (-3, 1, 2)]
@@ -134,7 +135,7 @@ def alpha_mat(Rf, tol=1e-9):
     return None
 
 
-def replay_behaviours(behs):
+def replay_behaviours(behs, pid="C01"):
     """Step the real objects through specification behaviours; after every action the
     real registers must equal the specification's.  Also returns the recorded traces
     (abstracted observations) for trace validation by TLC."""
@@ -147,6 +148,8 @@ def replay_behaviours(behs):
         events = []
         ok = True
         acts = []
+        flip = 1.0
+        prev_q = tuple(st["q"])
         for step in b[1:]:
             act, args, st = step["action"], step["args"], step["state"]
             acts.append((act,) + tuple(a if isinstance(a, str) else tuple(a) for a in args))
@@ -171,15 +174,44 @@ def replay_behaviours(behs):
                     Rc = A.dcm_route(args[0], q)
                     d = maxdiff(Rc, Rm)
                     if not d <= 1e-11:
-                        t.fail("C01|%s|behaviour-matrix-register-differs" % args[0],
+                        t.fail(pid + "|%s|behaviour-matrix-register-differs" % args[0],
                                {"behaviour": acts, "got": Rc, "register": Rm})
                         ok = False
                     Rm = Rc
+                elif act == "ToQuat":
+                    from . import c02
+                    m = args[0]
+                    mm, kw = (("itzhack", {"version": int(m[-1])}) if m.startswith("itzhack") else
+                              (("sarabandi", {"threshold": 0.0}) if m == "sarabandi" else (m, {})))
+                    disp = args[1] if args[1] != "QuaternionArray(DCM=)" else "QuaternionArray(DCM=)#2@1"
+                    qn = np.asarray(c02.dispatch(disp, Rm, mm, kw))
+                    if np.iscomplexobj(qn):
+                        raise TypeError("complex quaternion from %s" % m)
+                    q = np.asarray(qn, dtype=float)
+                    ev["route"] = m
+                    ev["disp"] = args[1]
+                    # ToQuat is nondeterministic in the specification (Shepperd ties, eigen-solver
+                    # sign): the code may take another allowed output than the successor TLC chose;
+                    # all later actions commute with negation, so the replay continues with the sign
+                    rec = MOD.method_case(prev_q)
+                    if m == "shepperd":
+                        allowed = [g_unit(o) for o in rec["shepperd"]]
+                    elif m.startswith("itzhack"):
+                        allowed = [g_unit(prev_q), -g_unit(prev_q)]
+                    elif m == "hughes":
+                        allowed = [g_unit(o) for o in rec["hughes"]]
+                    else:
+                        allowed = [g_unit(rec["closed"])]
+                    if not min(maxdiff(q, a) for a in allowed) <= 1e-9:
+                        t.fail(pid + "|%s|behaviour-toquat-not-allowed" % m, {"behaviour": acts, "got": q, "allowed": allowed})
+                        ok = False
+                        break
+                    flip = 1.0 if maxdiff(q, g_unit(st["q"])) <= maxdiff(q, -g_unit(st["q"])) else -1.0
                 elif act == "Rotate":
                     got, inv = A.rot_route(args[0], q, args[1])
                     want = (Rm.T if inv else Rm) @ np.array(args[1], dtype=float)
                     if not maxdiff(got, want) <= 1e-11:
-                        t.fail("C01|%s|behaviour-rotated-vector" % args[0], {"behaviour": acts, "got": got, "want": want})
+                        t.fail(pid + "|%s|behaviour-rotated-vector" % args[0], {"behaviour": acts, "got": got, "want": want})
                         ok = False
                     ev["v"] = list(args[1])
                     # log the observation as integers: out/outden with outden = 1 (2O maps
@@ -192,18 +224,19 @@ def replay_behaviours(behs):
                 else:
                     raise KeyError(act)
             except Exception as e:  # noqa
-                t.fail("C01|%s|raises-%s" % (args[0] if args else act, type(e).__name__), {"behaviour": acts, "err": str(e)[:200]})
+                t.fail(pid + "|%s|raises-%s" % (args[0] if args else act, type(e).__name__), {"behaviour": acts, "err": str(e)[:200]})
                 ok = False
                 break
             t.calls += 1
             # compare with the specification state
-            wq = g_unit(st["q"])
+            wq = flip * g_unit(st["q"])
+            prev_q = tuple(st["q"])
             wR = g_mat(st["R"][0], st["R"][1])
             dq, dR = maxdiff(q, wq), maxdiff(Rm, wR)
             t.resid("behaviour-q", dq)
             t.resid("behaviour-R", dR)
             if not (dq <= 1e-11 and dR <= 1e-11):
-                t.fail("C01|%s|behaviour-state-differs" % (args[0] if args else act),
+                t.fail(pid + "|%s|behaviour-state-differs" % (args[0] if args else act),
                        {"behaviour": acts, "q": q, "want_q": wq, "R": Rm, "want_R": wR})
                 ok = False
                 break
@@ -223,7 +256,7 @@ def replay_behaviours(behs):
     return t, traces
 
 
-def validate_traces(chk, traces, name="trace"):
+def validate_traces(chk, traces, name="trace", pid="C01"):
     """TLC decides whether the recorded implementation traces are behaviours of the spec."""
     if not traces:
         return
@@ -241,10 +274,10 @@ def validate_traces(chk, traces, name="trace"):
     for ln in rej[:5]:
         val = tlc.parse_value(ln)
         tr = traces[val[1] - 1]
-        chk.fail("C01|trace-rejected|%s" % tr["events"][min(val[2], len(tr["events"])) - 1]["route"],
+        chk.fail(pid + "|trace-rejected|%s" % tr["events"][min(val[2], len(tr["events"])) - 1]["route"],
                  {"trace": tr, "first_unmatched_event": val[2]})
     if not rej:
-        chk.fail("C01|trace-spec|%s" % res.violated, {"tlc": res.output[-1500:]})
+        chk.fail(pid + "|trace-spec|%s" % res.violated, {"tlc": res.output[-1500:]})
     chk.traces += len(traces) - len(rej)
 
 
